@@ -239,6 +239,34 @@ def byc_load(E, v, args, node):
     return None
 
 
+BYC_EDGES = z3.Function('bycycle_edges_recomputed', ValSort, z3.BoolSort(), z3.RealSort(), ValSort)     # (model, reduction given?, reduction)
+
+
+@method('Opaque.recompute_edges')
+def byc_recompute_edges(E, v, args, node):
+    """group-level view of Bycycle.recompute_edges(reduction) on a model held in a list: the element is replaced, in place,
+    by the model with its edges recomputed (verified for the object itself under C14)"""
+    red = args.pos[0] if args.pos else args.kw.get('reduction')
+    has = z3.BoolVal(red is not None)
+    rv = to_real(lift(red)) if red is not None else z3.RealVal(0)
+    if not isinstance(v, Elem):
+        raise Unsupported('recompute_edges on %r' % (v,))
+    a = v.arr
+    root = getattr(a, 'parent', None)
+    if root is not None:
+        pa, pt = root
+        E.mutate(owner_of(pa), node, 'recompute_edges on a model of the group')
+        old = E.st.heap[pa.ident]
+        idx = v.idx
+        E.st.heap[pa.ident] = lambda i, j, old=old, pt=pt, idx=idx: _sel(z3.And(i == pt, j == idx), BYC_EDGES(old(i, j).t, has, rv), old(i, j).t)
+    else:
+        E.mutate(owner_of(a), node, 'recompute_edges on a model of the group')
+        old = E.st.heap[a.ident]
+        idx = v.idx
+        E.st.heap[a.ident] = lambda i, old=old, idx=idx: _sel(i == idx, BYC_EDGES(old(i).t, has, rv), old(i).t)
+    return None
+
+
 @method('Opaque.get')
 def opaque_get(E, v, args, node):
     key = args.pos[0]
